@@ -65,6 +65,13 @@ def build(driver, d):
         raw.commit_patch()
         raw.create_patch()
         mc["g/h"].attrs["ck"] = 1
+    else:
+        # plain HDF5 features reachable through the wrapped nodes: a dimension scale that lives outside of /g ...
+        mc["s1"] = np.array([10, 20, 30])
+        mc["s1"].make_scale("t")
+        mc["g/d2"].dims[0].attach_scale(mc["s1"])
+        # ... and a named datatype (cannot be made through the container; such files exist)
+        raw["g/h/ztype"] = np.dtype("<i4")
     return mc
 
 
@@ -76,7 +83,10 @@ def navigate(node, prim):
     isg = hasattr(node, "keys") and hasattr(node, "create_group")
     if "+" in prim:
         base, flag = prim.split("+")
-        return navigate(node, base).restrict(**{flag: True})
+        nxt = navigate(node, base)
+        if not hasattr(nxt, "restrict"):
+            raise NA("not a container node")
+        return nxt.restrict(**{flag: True})
     try:
         if prim == "parent":
             return node.parent
@@ -155,7 +165,39 @@ def mut_ops(node):
                 ("dataset.__setitem__", lambda: node.__setitem__((), node[()] if False else 5)),
                 ("dataset.write_direct", lambda: node.write_direct(np.zeros(node.shape)) if hasattr(node.__wrapped__, "write_direct") else (_ for _ in ()).throw(AttributeError())),
                 ("dataset.resize", lambda: node.resize((5,)) if hasattr(node.__wrapped__, "resize") else (_ for _ in ()).throw(AttributeError()))]
+        if _has_scale(node):
+            ops += [("dataset.dims_label", lambda: setattr(node.dims[0], "label", "hacked"))]
     return ops
+
+
+def _has_scale(node):
+    raw = node.__wrapped__
+    return isinstance(raw, h5py.Dataset) and len(raw.shape) > 0 and len(raw.dims[0]) > 0
+
+
+class _NoLeak(Exception):
+    """Raised by a probe whose result turned out not to depend on the protected contents."""
+
+
+def _leak_by_compare(node, op):
+    """node <op> x for an operand equal to the contents and for a different one: yields data iff the answers differ."""
+    import operator
+
+    cur = np.asarray(node.__wrapped__[()])
+    same, other = cur.copy(), np.asarray(cur + 1) if cur.dtype.kind in "iuf" else np.void(b"zzz")
+    r1, r2 = getattr(operator, op)(node, same), getattr(operator, op)(node, other)
+    if np.array_equal(np.asarray(r1), np.asarray(r2)):
+        raise _NoLeak()
+    return r1
+
+
+def _attrs_leak_by_compare(a, ak):
+    raw = dict(a.__wrapped__.items()) if hasattr(a, "__wrapped__") else dict(a.items())
+    other = dict(raw)
+    other[ak] = 4711
+    if (a == raw) == (a == other) and (a != raw) == (a != other):
+        raise _NoLeak()
+    return True
 
 
 def read_ops(node):
@@ -181,6 +223,20 @@ def read_ops(node):
             ops += [("dataset.__bytes__", lambda: bytes(node)), ("dataset.__reversed__", lambda: list(reversed(node))),
                     ("dataset.__iter__", lambda: list(node)), ("dataset.__contains__", lambda: 2 in node),
                     ("dataset.sum", lambda: sum(node)), ("dataset.np_array", lambda: np.array(node))]
+        plain = isinstance(node.__wrapped__, h5py.Dataset)  # (IH5 datasets implement no operators)
+        numeric = plain and np.asarray(node.__wrapped__[()]).dtype.kind in "iuf"
+        if numeric:  # arithmetic with a numpy operand ends up in the raw dataset's __array__
+            ops += [("dataset.op_add", lambda: node + np.int64(0)), ("dataset.op_radd", lambda: np.int64(0) + node),
+                    ("dataset.op_mul", lambda: node * np.int64(1)), ("dataset.op_sub_array", lambda: node - np.zeros(np.shape(node.__wrapped__[()]), int)),
+                    ("dataset.op_divmod", lambda: divmod(node, np.int64(1))),
+                    ("dataset.op_lt", lambda: _leak_by_compare(node, "lt")), ("dataset.op_ge", lambda: _leak_by_compare(node, "ge"))]
+        if numeric:
+            ops += [("dataset.op_eq", lambda: _leak_by_compare(node, "eq")), ("dataset.op_ne", lambda: _leak_by_compare(node, "ne"))]
+        if _has_scale(node):
+            ops += [("dataset.dims_scale_values", lambda: node.dims[0][0][()])]
+    raw_attrs = getattr(a, "__wrapped__", a)
+    if not any(k in _REF_ATTRS for k in raw_attrs.keys()):
+        ops += [("attrs.__eq__", lambda: _attrs_leak_by_compare(a, ak))]
     return ops
 
 
@@ -223,6 +279,18 @@ def upward_ops(node, root):
             pass
         return seen
 
+    if not isg:
+        if _has_scale(node):
+            ops += [("dims_scale_name", lambda: node.dims[0][0].name), ("dims_scale_file", lambda: node.dims[0][0].file.name)]
+    else:  # whatever a lookup or listing hands out (also objects that are neither group nor dataset) stays inside
+        def odd_objects():
+            out = []
+            for k, v in list(node.items()) + [(k, node.get(k)) for k in list(node.keys())]:
+                if not hasattr(v, "acl"):
+                    out += [v.file.name if hasattr(v, "file") else "?", v.parent.name if hasattr(v, "parent") else "?"]
+            return out
+
+        ops += [("unwrapped_objects", odd_objects)]
     ops += [("meta_values_node_file", lambda: list(node.meta.values())[0].node.file.name),
             ("meta_values_node_parent", lambda: list(node.meta.values())[0].node.parent.parent.name),
             ("query_default", lambda: [n.name for n in node.metador.query("verif.base")]),
@@ -232,11 +300,21 @@ def upward_ops(node, root):
     return ops
 
 
+_REF_ATTRS = ("REFERENCE_LIST", "DIMENSION_LIST")  # object references: no stable text form
+
+
+def _attr_snap(o):
+    return tuple(sorted((k, repr(canon(v))) for k, v in o.attrs.items() if k not in _REF_ATTRS))
+
+
 def snap(mc):
     out = {}
 
     def cb(name, o):
-        out[name] = ("g" if is_group(o) else repr(canon(o[()])), tuple(sorted((k, repr(canon(v))) for k, v in o.attrs.items())))
+        if isinstance(o, h5py.Datatype):
+            out[name] = ("t:" + str(o.dtype), _attr_snap(o))
+            return
+        out[name] = ("g" if is_group(o) else repr(canon(o[()])), _attr_snap(o))
 
     mc.__wrapped__.visititems(cb)
     out["/"] = tuple(sorted((k, repr(canon(v))) for k, v in mc.__wrapped__.attrs.items()))
@@ -285,7 +363,8 @@ def run_block(driver, start, flags, late, maxlen, rec):
             try:
                 acl = {k.name: v for k, v in node.acl.items()}
             except Exception as e:  # noqa: BLE001
-                rec.fail("C15:derived-node-without-acl", case, f"{type(node).__name__}: {e}", "restricted node")
+                if eff:  # (unrestricted: e.g. a named datatype comes back as the plain h5py object)
+                    rec.fail("C15:derived-node-without-acl", case, f"{type(node).__name__}: {e}", "restricted node")
                 continue
             lost = [f for f in eff if not acl.get(f)]
             if lost:
@@ -330,11 +409,15 @@ def run_block(driver, start, flags, late, maxlen, rec):
                 try:
                     fn()
                     raised = False
+                except _NoLeak:
+                    if not sk:
+                        continue  # (e.g. IH5 attribute sets compare by identity anyway)
+                    raised = True
                 except Exception as e:  # noqa: BLE001
                     raised = True
                 if sk and not raised:
                     rec.fail(f"C15:skel-only-read-accepted:{name}", dict(case, op=name), f"{name} on {node.name} yielded data", "refused")
-                elif not sk and raised and not (name.startswith("meta.") and len(node.meta.keys()) == 0) and not flags:
+                elif not sk and raised and not (name.startswith("meta.") and len(node.meta.keys()) == 0) and not eff:
                     rec.fail(f"C15:control-read-fails:{name}", dict(case, op=name), f"{name} on unrestricted {node.name} raised", "succeeds")
                 rec.case(nt_key=nt_base + [name] if chain and sk else None,
                          classes=classes + (["skel_read_refused"] if sk else ["control_succeeds"] if not flags else []))
@@ -421,6 +504,8 @@ def _run_control(driver, rec):
                 try:
                     for prim in chain:
                         node = navigate(node, prim)
+                    if not hasattr(node, "acl"):
+                        raise NA("not a container node")
                 except NA:
                     mc.close()
                     continue
